@@ -377,3 +377,33 @@ def poly_corner_stream(rng, r, nblocks, prefix=b""):
             out += b
             h = poly1305_acc(r, out)
     return out
+
+
+def mixed_order_sig(rng, where="R", pure=True):
+    """a signature made WITH the secret scalar in which an order-8 (or 4, 2) torsion point is added to the commitment R
+    (where="R") or to the public key A (where="A").  Both points are of mixed order, so they pass every small-order check and have
+    canonical encodings.  The cofactorless equation [S]B = R + [k]A (libsodium, RFC 8032 strict) rejects the R-variant always and the
+    A-variant unless k·T = 0; the cofactored equation [8][S]B = [8]R + [8][k]A accepts both.
+    Returns (pk, msg, sig, strict_accepts)."""
+    torsion = [ed_decode(t) for t in ED_SMALL_ORDER]
+    torsion = [t for t in torsion if t is not None and ed_compress(t) != ed_compress((0, 1, 1, 0))]
+    a = int.from_bytes(bytes(rng.getrandbits(8) for _ in range(32)), "little") % ED_L
+    r = int.from_bytes(bytes(rng.getrandbits(8) for _ in range(32)), "little") % ED_L
+    T = rng.choice(torsion)
+    A = _ed_mul(a, ED_G)
+    R = _ed_mul(r, ED_G)
+    if where == "R":
+        R = _ed_add(R, T)
+    else:
+        A = _ed_add(A, T)
+    Ab, Rb = ed_compress(A), ed_compress(R)
+    msg = bytes(rng.getrandbits(8) for _ in range(rng.randrange(0, 30)))
+    dom = b"" if pure else DOM2
+    m = msg if pure else sha512(msg)
+    k = int.from_bytes(sha512(dom + Rb + Ab + m), "little") % ED_L
+    S = (r + k * a) % ED_L
+    if where == "R":
+        strict = False
+    else:
+        strict = ed_compress(_ed_mul(k % 8, T)) == ed_compress((0, 1, 1, 0))
+    return Ab, msg, Rb + S.to_bytes(32, "little"), strict
